@@ -309,13 +309,11 @@ where
     /// ```
     pub fn disconnect(&self, other: &K) -> Result<E, Error> {
         match self.find_outbound(other) {
-            Some(other) => match self.inner.2.write().unwrap().remove_outbound(other.key()) {
-                Ok(edge) => {
-                    other.inner.2.write().unwrap().remove_inbound(self.key())?;
-                    Ok(edge)
-                }
-                Err(_) => Err(Error::EdgeNotFound),
-            },
+            Some(other) => {
+                let edge = self.inner.2.write().unwrap().remove_outbound(other.key())?;
+                other.inner.2.write().unwrap().remove_inbound(self.key())?;
+                Ok(edge)
+            }
             None => Err(Error::EdgeNotFound),
         }
     }
